@@ -89,12 +89,18 @@ class TapPipe:
             if packet is None:
                 return
         self.rig.log_hci(self.dev, self.direction, packet)
+        if self.direction == H2C:
+            self.rig.boundary_log.append(
+                (len(self.rig.boundary_log), self.dev, H2C, packet, self.rig.loop.time()))
         self.fifo.push(self._deliver, packet)
 
     def _deliver(self, packet: bytes) -> None:
         if self.cut:
             self.rig.dropped += 1
             return
+        if self.direction == C2H:
+            self.rig.boundary_log.append(
+                (len(self.rig.boundary_log), self.dev, C2H, packet, self.rig.loop.time()))
         for fn in self.rig.on_hci_delivery:
             fn(self.dev, self.direction, packet)
         try:
@@ -126,6 +132,9 @@ class Rig:
         self.in_flight = 0
         self.dropped = 0
         self.hci_log: list[tuple] = []
+        # host-boundary view: h2c packets at emission, c2h packets at delivery, i.e.
+        # exactly the order in which each host sent and saw things
+        self.boundary_log: list[tuple] = []
         self.deliveries: list[str] = []
         self._sig = hashlib.sha1()
         self.exceptions: list[tuple[str, str]] = []
@@ -286,6 +295,58 @@ class Rig:
         """HCI transport to the controller is lost for host `dev`."""
         self.h2c[dev].cut = True
         self.c2h[dev].cut = True
+
+
+# -----------------------------------------------------------------------------
+class RawPeer:
+    """Turns device `dev` of the rig into a scripted peer: L2CAP PDUs that reach its
+    host are handed to the harness instead of bumble's upper layers, and the harness
+    sends raw PDUs with whatever identifiers and orderings it likes. The device's
+    HCI/controller/link machinery stays real."""
+
+    def __init__(self, rig: Rig, dev: int):
+        self.rig = rig
+        self.dev = dev
+        self.device = rig.devices[dev]
+        self.inbox: list[tuple[int, int, bytes]] = []  # (handle, cid, payload)
+        self.handlers: list = []
+        self._cursor = 0
+        self.event = asyncio.Event()
+        mgr = self.device.l2cap_channel_manager
+
+        def on_pdu(connection, cid, pdu):
+            rec = (connection.handle, cid, bytes(pdu))
+            self.inbox.append(rec)
+            self.event.set()
+            for h in self.handlers:
+                h(*rec)
+
+        mgr.on_pdu = on_pdu
+
+    def send(self, handle: int, cid: int, payload: bytes):
+        self.device.host.send_l2cap_pdu(handle, cid, payload)
+
+    def take(self):
+        """PDUs received since the last take()."""
+        out = self.inbox[self._cursor:]
+        self._cursor = len(self.inbox)
+        return out
+
+    async def wait_for(self, pred, t_v: float = 60.0):
+        """Wait (virtual time) until a received-but-not-yet-taken PDU satisfies pred;
+        returns it (and consumes everything up to it) or None on timeout."""
+        async def _w():
+            while True:
+                for i in range(self._cursor, len(self.inbox)):
+                    if pred(*self.inbox[i]):
+                        self._cursor = i + 1
+                        return self.inbox[i]
+                self.event.clear()
+                await self.event.wait()
+        try:
+            return await asyncio.wait_for(_w(), t_v)
+        except asyncio.TimeoutError:
+            return None
 
 
 # -----------------------------------------------------------------------------
